@@ -86,22 +86,24 @@ theorem matched_record_own (sc : SCfg) (c : StdCfg) (find : Oracle) (buf : Bytes
   · simp only [hpm, Bool.false_eq_true, ↓reduceIte]
     exact ⟨_, rfl, rfl, rfl, rfl, rfl, rfl⟩
 
-/-- **The column is the start of the first match**: with `--column` (not `--vimgrep`, single-line mode), if the
-matcher's first answer from the start of the line is `m` and it starts inside the line (or exactly at the end of
-a final line without terminator), the record of the line carries column `m.start - line start + 1`. -/
+/-- **The column is the start of the first match in the line**: with `--column` (not `--vimgrep`, single-line
+mode), the printer searches the line's own content (terminator removed) from its first byte (0cdcce3); if the
+matcher's first answer there is `m`, the record of the line carries column `m.start + 1`. -/
 theorem matched_record_column (sc : SCfg) (c : StdCfg) (find : Oracle) (buf : Bytes) (rs re off : Nat)
     (ln : Option Nat) (m : Span) (hml : sc.multiLine = false) (hpm : c.perMatch = false) (hcol : c.column = true)
-    (hrs : rs ≤ (cutHaystack sc buf re).length)
-    (hf : find (cutHaystack sc buf re) rs = some m)
-    (hin : m.s < re ∨ (isAtUnterminatedEnd sc.lt (cutHaystack sc buf re) rs re = true ∧ m.s = re)) :
-    ∃ r, eventRecords sc c find (.matched buf rs re off ln) = [r] ∧ r.col = some (m.s - rs + 1) := by
-  obtain ⟨t, ht⟩ := findIterInContext_head sc find buf rs re m hrs hf hin
+    (hf : find (lineHaystack sc.lt buf rs re) 0 = some m) :
+    ∃ r, eventRecords sc c find (.matched buf rs re off ln) = [r] ∧ r.col = some (m.s + 1) := by
+  have hsh : shownHay sc buf rs re = lineHaystack sc.lt buf rs re := by simp [shownHay, hml]
+  have hfr : shownFrom sc rs = 0 := by simp [shownFrom, hml]
+  obtain ⟨t, ht⟩ := findIterInContext_head sc find buf rs re m (by rw [hfr]; omega) (by rw [hsh, hfr]; exact hf)
+    (by intro h; rw [hml] at h; cases h)
+  simp only [hml, Bool.false_eq_true, ↓reduceIte] at ht
   have hg : c.granular = true := by simp [StdCfg.granular, hcol]
   unfold eventRecords
   simp only [hml, Bool.false_eq_true, ↓reduceIte, eventSpans, hg, ht, shiftSpans, List.map_cons]
   unfold lineRecords
   simp only [hpm, Bool.false_eq_true, ↓reduceIte, hcol, optIf]
-  exact ⟨_, rfl, rfl⟩
+  exact ⟨_, rfl, by simp⟩
 
 /-- The F6 regression in the model: `$` on the single unterminated line `abc` (matcher answers `[3,3)`) gives
 column 4. -/
@@ -111,38 +113,31 @@ example :
     [{ path := none, lineNo := some 1, col := some 4, off := none, isCtx := false, text := [97, 98, 99, 10] }] := by
   decide
 
-/-- Full statement for one event: whatever the line terminator mode, the sink appends exactly the layout of the
-event's own records (only-matching output is outside C09). -/
-def C09_standard_event_full : Prop :=
-  ∀ (sc : SCfg) (c : StdCfg) (find : Oracle) (st : StdState) (ev : Event),
-    c.onlyMatching = false →
-    (stdEvent sc c find st ev).1.out = st.out ++ eventOutput sc c find st.count st.total ev
-
-/-- FALSE on the current tree (finding F19): `--crlf -U` with match granularity prints the bare-LF line `a\n` of
-a block as `a\r\n`. -/
-theorem C09_standard_event_full_fails : ¬ C09_standard_event_full := by
-  intro h
-  have := h { lt := .crlf, multiLine := true } { stats := true }
-    (fun _ p => if p == 0 then some ⟨0, 3⟩ else none) {} (.matched [97, 10, 98, 10] 0 4 0 none) rfl
-  revert this
-  decide
-
 /-- **C09, Standard printer, one event**, every path (single-line, context, fast / slow / `--vimgrep` multi-line)
-under the guard `coveredPath` — on the slow multi-line path no bare-LF line under `--crlf`: the sink appends, after the search prelude when nothing was
-written yet in this search, exactly the layout of the event's own records. -/
+and every line terminator mode: the sink appends, after the search prelude when nothing was written yet in this
+search, exactly the layout of the event's own records (only-matching output is outside C09). Full strength since
+the repair of F19 (b0493c8): the slow multi-line paths keep each line's own terminator. -/
 theorem C09_standard_event (sc : SCfg) (c : StdCfg) (find : Oracle) (st : StdState) (ev : Event)
-    (ho : c.onlyMatching = false) (hc : coveredPath sc c find ev = true) :
+    (ho : c.onlyMatching = false) :
     (stdEvent sc c find st ev).1.out = st.out ++ eventOutput sc c find st.count st.total ev :=
-  stdEvent_out_covered sc c find st ev ho hc
+  stdEvent_out_all sc c find st ev ho
+
+/-- Regression witness for F19 (before b0493c8 the first line came out as `a\r\n`): `--crlf -U` with match
+granularity prints the bare-LF lines `a\n`, `b\n` of a block unchanged. -/
+example :
+    (stdEvent { lt := .crlf, multiLine := true } { stats := true }
+      (fun _ p => if p == 0 then some ⟨0, 3⟩ else none) {} (.matched [97, 10, 98, 10] 0 4 0 none)).1.out =
+    [97, 10, 98, 10] := by
+  decide
 
 /-- **C09, Standard printer, whole stream**: the bytes printed for a search are the concatenation, over the
 events the sink consumed (in order), of each event's own records in the record layout; nothing else is printed
 except the search separator / heading before the first record and the context separator for a context break. -/
 theorem C09_standard (sc : SCfg) (c : StdCfg) (find : Oracle) (st : StdState) (evs : List Event)
-    (ho : c.onlyMatching = false) (hc : ∀ ev ∈ evs, coveredPath sc c find ev = true) :
+    (ho : c.onlyMatching = false) :
     (stdEvents sc c find st evs).out =
       st.out ++ (processed sc c find st evs).flatMap (fun p => eventOutput sc c find p.1.count p.1.total p.2) :=
-  stdEvents_out_covered sc c find ho evs st hc
+  stdEvents_out_all sc c find ho evs st
 
 /-- In a multi-line block every line is a record of its own: line number `ln + i`, the offset of its first byte,
 its own text (a missing terminator completed). -/
@@ -167,20 +162,21 @@ theorem block_records_own (lt : LineTerm) (c : StdCfg) (absOff : Nat) (ln col : 
       · rw [h2]; congr 1; funext x; omega
       · rw [h3]; simp; congr 1; omega
 
-/-- non-vacuity of the hypotheses of `C09_standard`: a match with `--column` in single-line mode is on the covered
-path and has a recorded match; so is a multi-line block with match granularity whose lines end in LF (or CRLF
-under `--crlf`). -/
+/-- the events `C09_standard` speaks about do record matches: a match with `--column` in single-line mode (found
+in the line's own content `ab`), and a multi-line block with match granularity. -/
 example :
-    coveredPath {} { column := true } (fun _ p => if p ≤ 1 then some ⟨1, 2⟩ else none)
-      (.matched [97, 98, 10, 99] 0 3 0 (some 1)) = true ∧
     eventSpans {} { column := true } (fun _ p => if p ≤ 1 then some ⟨1, 2⟩ else none)
       (.matched [97, 98, 10, 99] 0 3 0 (some 1)) = [⟨1, 2⟩] ∧
-    coveredPath { multiLine := true } { column := true } (fun _ p => if p == 0 then some ⟨0, 3⟩ else none)
-      (.matched [97, 10, 98, 10] 0 4 0 (some 1)) = true ∧
     eventSpans { multiLine := true } { column := true } (fun _ p => if p == 0 then some ⟨0, 3⟩ else none)
-      (.matched [97, 10, 98, 10] 0 4 0 (some 1)) = [⟨0, 3⟩] ∧
-    coveredPath { multiLine := true, lt := .crlf } { column := true } (fun _ p => if p == 0 then some ⟨0, 4⟩ else none)
-      (.matched [97, 13, 10, 98, 13, 10] 0 6 0 (some 1)) = true := by
+      (.matched [97, 10, 98, 10] 0 4 0 (some 1)) = [⟨0, 3⟩] := by
+  decide
+
+/-- 0cdcce3 in the model: the second line `b` of `ab\nb` is searched on its own, so a matcher for `\Ab` (answers
+only at position 0 of what it is shown) gives it column 1; shown the buffer from offset 3 it would have no match. -/
+example :
+    eventRecords {} { column := true } (fun hay p => if p == 0 && hay.head? == some 98 then some ⟨0, 1⟩ else none)
+      (.matched [97, 98, 10, 98] 3 4 3 (some 2)) =
+    [{ path := none, lineNo := some 2, col := some 1, off := none, isCtx := false, text := [98, 10] }] := by
   decide
 
 /-! ## JSON printer -/
@@ -250,9 +246,11 @@ example :
     have : (302 - 2 ≥ 128) := by omega
     simp only [this, ↓reduceIte, List.length_take, hlen]
     omega
-  rw [findIterInContext_eq, hcut, show (130 : Nat) + 2 = 130 + 1 + 1 from rfl, iterGo_succ]
-  have hstep : ∀ atEnd, step 2 atEnd [] ⟨0, 130⟩ = ([⟨0, 2⟩], true) := by
-    intro atEnd; simp [step, beyondRange]
+  rw [findIterInContext_eq]
+  simp only [↓reduceIte]
+  rw [hcut, show (130 : Nat) + 2 = 130 + 1 + 1 from rfl, iterGo_succ]
+  have hstep : ∀ atEnd, gstep (keepML 2 atEnd) (trML 2) [] ⟨0, 130⟩ = ([⟨0, 2⟩], true) := by
+    intro atEnd; simp [gstep, keepML, trML, beyondRange]
   simp [lookaheadCutMatcher, hcut, hstep]
   apply iterGo_find_none
   simp [lookaheadCutMatcher]
